@@ -277,7 +277,8 @@ def traced_compile(P, files, main, *, tid, mode="inproc", key="", want_outputs=F
                         out["ir_json"] = P.ir_data_utils.IrDataSerializer(ir).to_json()
                     header, errors = P.hg.generate_header(ir, P.hg.Config(include_enum_traits=True))
                 P.emit("Back", groups=groups_sig(errors), has_header=header is not None)
-            rep = {"kind": "errors" if errors else "done"}
+            rep = {"kind": "errors" if errors else "done", "key": key,
+                   "anon": [i for e in P.events if e["ev"] == "ModEnd" for i in e["ids"]]}
             if errors:
                 stage = "report"
                 rep["errors"] = [[msg_proj(m) for m in g] for g in errors]
@@ -305,15 +306,14 @@ def traced_compile(P, files, main, *, tid, mode="inproc", key="", want_outputs=F
                 rep["plain"] = rep["colour"] = "ok"
                 if want_outputs:
                     out["header"] = header
-            if want_outputs:
-                for k in ("ir_json", "header", "stderr"):
-                    txt = out.get(k)
-                    if txt is None:
-                        rep[k + "_raw"] = rep[k + "_norm"] = "-"
-                    else:
-                        norm, _ = normalise_anon(txt)
-                        rep[k + "_raw"] = h(txt, 16)
-                        rep[k + "_norm"] = h(norm, 16)
+            for k in ("ir_json", "header", "stderr"):
+                txt = out.get(k) if want_outputs else None
+                if txt is None:
+                    rep[k + "_raw"] = rep[k + "_norm"] = "-"
+                else:
+                    norm, _ = normalise_anon(txt)
+                    rep[k + "_raw"] = h(txt, 16)
+                    rep[k + "_norm"] = h(norm, 16)
             P.emit("Report", **rep)
         except RecursionError as e:
             P.emit("Exception", type="RecursionError", site=exc_site(e), stage=stage)
